@@ -7,6 +7,7 @@ import (
 	"fmt"
 	"go/ast"
 	"go/parser"
+	"go/printer"
 	"go/token"
 	"os"
 	"path/filepath"
@@ -115,6 +116,88 @@ func main() {
 	sort.Strings(client)
 	sort.Strings(node)
 	sort.Strings(host)
+	// 4. composition (validatornode/main.go, presentation/api/host.go, accessnode/presentation/node.go):
+	// which function, period, occurrences each engine gets; which timeouts the server is given;
+	// which sender each access-node controller gets
+	text := func(e ast.Expr) string {
+		var sb strings.Builder
+		_ = printer.Fprint(&sb, fset, e)
+		return strings.Join(strings.Fields(sb.String()), " ")
+	}
+	var engines, hostSets, access []string
+	mf := parse("validatornode/main.go")
+	ast.Inspect(mf, func(n ast.Node) bool {
+		as, ok := n.(*ast.AssignStmt)
+		if !ok || len(as.Lhs) != 1 || len(as.Rhs) != 1 {
+			return true
+		}
+		c, ok := as.Rhs[0].(*ast.CallExpr)
+		if !ok || sel(c.Fun) != "clock.NewEngine" || len(c.Args) != 5 {
+			return true
+		}
+		engines = append(engines, fmt.Sprintf("  (%s, %s, %s, %s, %s)", q(text(as.Lhs[0])), q(text(c.Args[0])), q(text(c.Args[2])), q(text(c.Args[3])), q(text(c.Args[4]))))
+		return true
+	})
+	var nodeArgs []string
+	ast.Inspect(mf, func(n ast.Node) bool {
+		c, ok := n.(*ast.CallExpr)
+		if !ok {
+			return true
+		}
+		switch sel(c.Fun) {
+		case "presentation.NewNode":
+			for _, a := range c.Args {
+				nodeArgs = append(nodeArgs, q(text(a)))
+			}
+		case "api.NewHost":
+			for i, a := range c.Args {
+				hostSets = append(hostSets, fmt.Sprintf("  (%s, %s)", q(fmt.Sprintf("NewHost.arg%d", i)), q(text(a))))
+			}
+		}
+		return true
+	})
+	ast.Inspect(hf, func(n ast.Node) bool {
+		c, ok := n.(*ast.CallExpr)
+		if !ok {
+			return true
+		}
+		if se, ok := c.Fun.(*ast.SelectorExpr); ok && sel(se.X) == "serverSettings" && len(c.Args) == 1 {
+			hostSets = append(hostSets, fmt.Sprintf("  (%s, %s)", q("serverSettings."+se.Sel.Name), q(text(c.Args[0]))))
+		}
+		return true
+	})
+	af := parse("accessnode/presentation/node.go")
+	senderParam := "?"
+	for _, d := range af.Decls {
+		fd, ok := d.(*ast.FuncDecl)
+		if !ok || fd.Name.Name != "NewNode" {
+			continue
+		}
+		for _, fl := range fd.Type.Params.List {
+			if text(fl.Type) == "application.Sender" && len(fl.Names) > 0 {
+				senderParam = fl.Names[0].Name
+			}
+		}
+		ast.Inspect(fd, func(n ast.Node) bool {
+			c, ok := n.(*ast.CallExpr)
+			if !ok {
+				return true
+			}
+			name := sel(c.Fun)
+			if strings.Contains(name, ".New") && strings.HasSuffix(name, "Controller") {
+				first := "-"
+				if len(c.Args) > 0 {
+					first = text(c.Args[0])
+				}
+				if first == senderParam {
+					first = "sender-parameter"
+				}
+				access = append(access, fmt.Sprintf("  (%s, %s)", q(name), q(first)))
+			}
+			return true
+		})
+	}
+	sort.Strings(access)
 	var b strings.Builder
 	b.WriteString("(* GENERATED by /verif/tools/genendpoints from /repo's current source. Do not edit. *)\n")
 	b.WriteString("From RV Require Import model.Base.\nLocal Open Scope string_scope.\n\n")
@@ -122,6 +205,10 @@ func main() {
 	b.WriteString("(* Node.NewNode: server setter called, constant passed *)\nDefinition node_bind : list (string * string) := [\n" + strings.Join(node, ";\n") + "\n].\n\n")
 	b.WriteString("(* Host setter, handler it binds, what it passes as the endpoint (\"param\" = its own argument) *)\nDefinition host_bind : list (string * string * string) := [\n" + strings.Join(host, ";\n") + "\n].\n\n")
 	b.WriteString("(* client method of Neighbor, constant it sends to, request encoding *)\nDefinition client_bind : list (string * string * string) := [\n" + strings.Join(client, ";\n") + "\n].\n")
+	b.WriteString("\n(* validatornode/main.go: engine variable, function, period, occurrences, skipped occurrences *)\nDefinition engine_wiring : list (string * string * string * string * string) := [\n" + strings.Join(engines, ";\n") + "\n].\n\n")
+	b.WriteString("(* validatornode/main.go: the engines handed to presentation.NewNode after the host *)\nDefinition node_engines : list string := [" + strings.Join(nodeArgs, "; ") + "].\n\n")
+	b.WriteString("(* api.NewHost arguments in main.go and the server settings set in host.go *)\nDefinition host_wiring : list (string * string) := [\n" + strings.Join(hostSets, ";\n") + "\n].\n\n")
+	b.WriteString("(* accessnode/presentation/node.go: controller constructor, its first argument (sender-parameter = NewNode's own sender) *)\nDefinition access_wiring : list (string * string) := [\n" + strings.Join(access, ";\n") + "\n].\n")
 	old, _ := os.ReadFile(outPath)
 	if string(old) != b.String() {
 		if err := os.WriteFile(outPath, []byte(b.String()), 0o644); err != nil {
